@@ -696,6 +696,18 @@ func (r *collection) addService(service any, lifetime Lifetime, opts ...AddOptio
 	return r.registerDescriptor(descriptor)
 }
 
+// checkNotReserved rejects the types the framework injects itself.
+func checkNotReserved(serviceType reflect.Type) error {
+	if _, isReserved := reservedTypes[serviceType]; isReserved {
+		return &ValidationError{
+			ServiceType: serviceType,
+			Cause:       fmt.Errorf("service type %s is reserved and cannot be registered", formatType(serviceType)),
+		}
+	}
+
+	return nil
+}
+
 // registerAll registers the descriptors one registration call produces (result
 // object fields, multiple returns, interface aliases) atomically: if one of
 // them collides with an existing registration, or with an earlier descriptor
@@ -703,6 +715,10 @@ func (r *collection) addService(service any, lifetime Lifetime, opts ...AddOptio
 func (r *collection) registerAll(descriptors []*Descriptor, operation string) error {
 	batch := make(map[TypeKey]struct{}, len(descriptors))
 	for _, descriptor := range descriptors {
+		if err := checkNotReserved(descriptor.Type); err != nil {
+			return err
+		}
+
 		if descriptor.Key == nil && descriptor.Group != "" {
 			continue // group members never collide
 		}
@@ -749,6 +765,12 @@ func (r *collection) registerAll(descriptors []*Descriptor, operation string) er
 // Regular services are registered by type and key,
 // and grouped services are registered in their respective groups.
 func (r *collection) registerDescriptor(descriptor *Descriptor) error {
+	// Every registration form ends up here: interface aliases, additional
+	// return values and result object fields must not be reserved types either
+	if err := checkNotReserved(descriptor.Type); err != nil {
+		return err
+	}
+
 	// Register based on type of service
 	if descriptor.Key != nil || descriptor.Group == "" {
 		key := TypeKey{Type: descriptor.Type, Key: descriptor.Key}
